@@ -15,10 +15,10 @@ PROP = {
         dict(_ENG, name="texts", cases={"quick": 12000, "thorough": 600000}, min_shard=1500, gen_args=["texts"]),
         # implementation-vs-implementation: every single cut / random multi-cuts of grammar, printed and mutated
         # texts through WithLenRecognizerDecoder and RecognizerDecoder vs uncut vs one-shot; no panic, no hang
-        dict(_ENG, name="chunks", cases={"quick": 1600, "thorough": 60000}, min_shard=100, gen_args=["chunks"],
+        dict(_ENG, name="chunks", bin="sv-c09x", cases={"quick": 1600, "thorough": 60000}, min_shard=100, gen_args=["chunks"],
              modes=["monitor"]),
         # derived Form types: parse::<T>(print(t)) == t for the three printers
-        dict(_ENG, name="typed", cases={"quick": 1500, "thorough": 60000}, min_shard=500, gen_args=["typed"],
+        dict(_ENG, name="typed", bin="sv-c09x", cases={"quick": 1500, "thorough": 60000}, min_shard=500, gen_args=["typed"],
              modes=["monitor"]),
     ],
     "rule": "values: one case = one generated model value with 3 print ops + 3 print/parse/print/parse cycles; texts: "
